@@ -395,13 +395,16 @@ def worker_main(args):
     prelude = "complex-first" if derive_seed(args.seed, args.prop, "prelude", args.worker) % 2 else "real-first"
     apply_prelude(prelude)
     reports = []
+    t0 = time.time()
     for part in mod.PARTS:
         if args.part and part.name not in args.part.split(","):
             continue
         nsh = min(args.nshards, part.max_shards)
         if args.worker >= nsh:
             continue
+        t1 = time.time()
         reports.append(run_part_shard(args.prop, part, args.tier, args.seed, args.worker, nsh, known, prelude))
+        reports[-1]["wall_s"] = round(time.time() - t1, 2)
     with open(args.out, "w") as fh:
         fh.write(canon({"worker": args.worker, "prelude": prelude, "reports": reports}))
     return 0
@@ -502,6 +505,7 @@ def parent_main(args):
         logf = open(os.path.join(scratch, "w%d.log" % k), "w")
         procs.append((k, outp, subprocess.Popen(cmd, env=env, stdout=logf, stderr=subprocess.STDOUT), logf))
     evaluations = 0
+    shard_wall = {}
     sigs = set()
     labels = {}
     samples = []
@@ -516,6 +520,7 @@ def parent_main(args):
             continue
         doc = json.load(open(outp))
         for rep in doc["reports"]:
+            shard_wall.setdefault(rep["part"], []).append(rep.get("wall_s", 0))
             evaluations += rep["evaluations"]
             pp = per_part.setdefault(rep["part"], {"evaluations": 0, "nontrivial": set()})
             pp["evaluations"] += rep["evaluations"]
@@ -561,6 +566,7 @@ def parent_main(args):
         "parts": {k: {"evaluations": v["evaluations"], "distinct_nontrivial": len(v["nontrivial"])}
                   for k, v in per_part.items()},
         "shards": nshards,
+        "shard_wall_s": {k: {"min": min(v), "max": max(v)} for k, v in shard_wall.items()},
         "regressions_replayed": reg_run,
         "known_finding_hits": known_hits,
         "exhaustive": False,
